@@ -962,7 +962,7 @@ def _parse_link_atom(tokens, context, defaults=None, treat_prefix=True):
     full_attributes = dict(collections.ChainMap(attributes, node_attributes, defaults))
 
     if prefixed_reference in context.nodes:
-        context.nodes[prefixed_reference] = full_attributes
+        context.nodes[prefixed_reference].update(full_attributes)
     else:
         context.add_node(prefixed_reference, **full_attributes)
 
